@@ -176,3 +176,33 @@ package route
 //@   requires b != nil
 //@   ensures result == verif_uf_str("ComputeHash", b)
 //@   modifies nothing
+
+// Properties C09 / C17: prepending the local ASN. The first segment is an
+// AS_SEQUENCE that starts with the prepended ASN, and no segment grows beyond
+// the 255 ASNs its one-octet length field can announce.
+//@ spec
+//@ func spec_segsFit(b *BGPPath) bool {
+//@ 	return b.ASPath != nil && verif_forall(0, len(*b.ASPath), func(k int) bool { return len((*b.ASPath)[k].ASNs) <= 255 })
+//@ }
+//@ end
+
+//@ contract (*BGPPath).insertNewASSequence
+//@   props C09 C17
+//@   requires b != nil && b.ASPath != nil
+//@   old n int = len(*b.ASPath)
+//@   old fit bool = spec_segsFit(b)
+//@   ensures b.ASPath != nil && len(*b.ASPath) == n+1 && (*b.ASPath)[0].Type == types.ASSequence && len((*b.ASPath)[0].ASNs) == 0
+//@   ensures fit ==> spec_segsFit(b)
+//@   modifies b
+
+//@ contract (*BGPPath).Prepend
+//@   props C09 C17
+//@   requires b != nil && b.ASPath != nil
+//@   old fit bool = spec_segsFit(b)
+//@   ensures b.ASPath != nil
+//@   ensures[C09] times >= 1 ==> len(*b.ASPath) >= 1 && (*b.ASPath)[0].Type != types.ASSet && len((*b.ASPath)[0].ASNs) >= 1 && (*b.ASPath)[0].ASNs[0] == asn
+//@   ensures[C17] fit ==> spec_segsFit(b)
+//@   loop 0 vars i int
+//@   loop 0 invariant b.ASPath != nil && len(*b.ASPath) >= 1 && (*b.ASPath)[0].Type != types.ASSet && i >= 0
+//@   loop 0 invariant i >= 1 ==> len((*b.ASPath)[0].ASNs) >= 1 && (*b.ASPath)[0].ASNs[0] == asn
+//@   loop 0 invariant fit ==> spec_segsFit(b)
